@@ -77,6 +77,13 @@ func judgeOptimum(prop, cfg string, rp *ref.Problem, cost *ref.Cost, min int, sa
 		}
 		return
 	}
+	if status == solver.Indet && t.Stop {
+		// solver.Interface: "If data is sent to stop, the method may stop prematurely" and "If the solver
+		// prematurely stopped, the Indet status will be returned" -- legitimate only in worlds whose caller
+		// signalled stop (the pinned tree ignores the signal; a tree that honours it may return Indet)
+		out.probe("stopped-optimisation-indet")
+		return
+	}
 	if status != solver.Sat {
 		out.fail(prop, "indet", "[%s] final status %s", cfg, statusStr(status))
 		return
